@@ -213,6 +213,39 @@ pub fn run(ctx: &mut Ctx) {
         let (a, b) = (mk(&mut r), mk(&mut r));
         judge_pair(ctx, &a, &b, "random");
     }
+    // long conjunctions: 17..70 comparators on one side (counts around 16/32/64), nested so that
+    // the conjunction stays satisfiable; tagged comparators among them; any order
+    ctx.stratum("LC-long-conjunctions", false);
+    let nl = ctx.tier.n(60, 3_000);
+    for i in 0..nl {
+        if !ctx.take() {
+            continue;
+        }
+        let mut r = Rng::for_case(ctx.seed, "C02-LC", i);
+        let mut mk = |r: &mut Rng| -> String {
+            let k = *r.pick(&[1usize, 2, 17, 18, 33, 34, 65, 70]);
+            let mut c: Vec<String> = vec![];
+            for j in 0..k {
+                let t = match r.below(6) {
+                    0 => format!(">=1.0.{}", j),
+                    1 => format!(">1.0.{}", j),
+                    2 => format!("<3.0.{}", 200 - j),
+                    3 => format!("<=3.0.{}", 200 - j),
+                    4 => format!(">=1.0.{}-rc.{}", j, j % 3),
+                    _ => format!("<3.0.{}-beta", 200 - j),
+                };
+                c.push(t);
+            }
+            match r.below(3) {
+                0 => {}
+                1 => c.reverse(),
+                _ => r.shuffle(&mut c),
+            }
+            c.join(" ")
+        };
+        let (a, b) = (mk(&mut r), mk(&mut r));
+        judge_pair(ctx, &a, &b, "long-conjunction");
+    }
     ctx.stratum("T-triples-all-orders", false);
     let nt = ctx.tier.n(5_000, 500_000);
     for i in 0..nt {
